@@ -163,6 +163,14 @@ Theorem C02_collection_contains : forall (bs : list backend) f i k,
 Proof. exact contains_listed. Qed.
 Print Assumptions C02_collection_contains.
 
+(* Header preservation as a handle reports it: the (h1, comment, descriptor block) a handle takes from the file at any
+   later time -- whatever has been appended meanwhile -- are exactly the ones the file was created with. *)
+Theorem C02_header_read_back : forall h1 h2 b0 rest,
+  length h1 = 16%nat -> len h2 < 65536 -> len b0 < 4294967296 ->
+  read_header (mk_header h1 h2 b0 ++ rest) = (h1, h2, b0).
+Proof. exact read_header_spec. Qed.
+Print Assumptions C02_header_read_back.
+
 (* Non-vacuity of the extended history theorem: items/values/pickled copies on the example file. *)
 Definition ex_vops : list vop :=
   [VBase (Open 0 MA); VBase (Put 0 [1] [2; 3]); VItems 0; VBase (Close 0); VDup 0 1; VBase (Open 1 MR); VValues 1;
